@@ -526,7 +526,7 @@ func genPlumb(c *Ctx) error {
 				if !(strings.HasPrefix(fn, "underlayProviders[") || factVars[fn]) {
 					return true
 				}
-				s := site{fn: fd.Name.Name, pos: fmt.Sprintf("dataplane.go:%d", c.fset.Position(ce.Pos()).Line)}
+				s := site{fn: fd.Name.Name, pos: fmt.Sprintf("dataplane.go:%06d", c.fset.Position(ce.Pos()).Line)}
 				for _, a := range ce.Args {
 					root, sel := rcfLastSel(a)
 					okRoot := root == "runConfig" || strings.HasSuffix(root, ".RunConfig") || root == "RunConfig"
@@ -553,8 +553,8 @@ func genPlumb(c *Ctx) error {
 			}
 		}
 		name := fmt.Sprintf("site%d_%s", i, s.fn)
-		fmt.Fprintf(&sb, "/-- factory call in `%s` (%s) -/\ndef %s (rc : RunConfig) : List Int := [%s]\n",
-			s.fn, s.pos, name, rcfJoinMap(s.args, func(a string) string { return "rc." + rcfLeanIdent(a) }))
+		fmt.Fprintf(&sb, "/-- factory call in `%s` -/\ndef %s (rc : RunConfig) : List Int := [%s]\n",
+			s.fn, name, rcfJoinMap(s.args, func(a string) string { return "rc." + rcfLeanIdent(a) }))
 		siteNames = append(siteNames, fmt.Sprintf("%q", s.fn))
 		siteDefs = append(siteDefs, name)
 	}
